@@ -240,6 +240,27 @@ def cycle_kinds(xml):
     return [k for k in ("item-definition-cycle", "knowledge-cycle", "decision-service-cycle", "decision-cycle", "mixed-cycle") if k in kinds]
 
 
+def recursive_functions(xml):
+    """Names of knowledge models whose body text calls (directly or through other knowledge models) itself: the trigger
+    set of the user-level unbounded recursion finding (textual call graph: `name(` inside the encapsulated logic)."""
+    try:
+        doc = xf.Doc(xml)
+    except (xf.XmlError, RecursionError):
+        return []
+    if doc.root is None:
+        return []
+    bodies = {}
+    for e in doc.root.elements():
+        if e.local() == "businessKnowledgeModel" and e.attr("name") is not None:
+            logic = [c for c in e.elements() if c.local() == "encapsulatedLogic"]
+            if logic:
+                bodies.setdefault(e.attr("name").value, xf.unescape(doc.text[logic[0].start:logic[0].end]))
+    graph = {}
+    for n, body in bodies.items():
+        graph[n] = {m for m in bodies if re.search(r"(?<![A-Za-z0-9_])" + re.escape(m) + r"\s*\(", body)}
+    return sorted({n for comp in _sccs(graph) for n in comp})
+
+
 def outcome(r):
     if "panic" in r:
         return "panic"
@@ -261,7 +282,7 @@ def describe(case):
     where = case["base"].get("file") or "generated model %s" % case["base"]["gen"]
     if "bytes" in case:
         return "%s, byte corruption %s" % (where, case["bytes"])
-    return "%s: %s" % (where, "; ".join(doc.describe(f) for f in case["faults"]))
+    return "%s: %s" % (where, "; ".join(doc.describe(f) for f in case["faults"]) or "unmutated")
 
 
 def judge_probe(ctx, case, resp, prof):
@@ -297,7 +318,7 @@ def judge_probe(ctx, case, resp, prof):
         labels = ["bytes", "bytes:" + "+".join(sorted({o[0] for o in case["bytes"]}))]
     else:
         cls = [xf.Doc.fault_class(f).split(":")[0] for f in case["faults"]]
-        labels = ["single" if len(cls) == 1 else "pair"] + sorted(set(cls))
+        labels = ["unmutated" if not cls else "single" if len(cls) == 1 else "pair"] + sorted(set(cls))
         if applied < len(case["faults"]):
             labels.append("pair-overlap(outer-only)")
     labels.append("outcome:" + out)
@@ -332,6 +353,10 @@ def verdict(ctx, case, r, out, xml, prof):
         if kinds and code in (-6, -11):
             return Fail("C12/stack-overflow/" + kinds[0], "[%s] %s\n  the process was killed by signal %s; the mutated model contains: %s" % (
                 prof, describe(case), code, ", ".join(kinds)), died=code, cycles=kinds)
+        rec = recursive_functions(xml) if code in (-6, -11) else []
+        if rec:
+            return Fail("C12/stack-overflow/recursive-function", "[%s] %s\n  the process was killed by signal %s; no cyclic requirement, "
+                        "but these knowledge models call themselves: %s" % (prof, describe(case), code, ", ".join(rec)), died=code, recursive=rec)
         return Fail("C12/abort", "[%s] %s\n  the process died (exit %s) and the mutated model contains no cyclic requirement" % (
             prof, describe(case), code), died=code)
     if out == "timeout":
@@ -480,6 +505,11 @@ def run(ctx):
                       name="all single structural faults of %d generated models" % len(gens), exhaustive=True)
         if ctx.stop():
             return
+    # every shipped model as it is (a model that is shipped and cannot be loaded without a crash is a finding of its own)
+    ctx.enumerate(ctx.p_single, ({"base": {"file": f}, "faults": []} for f in all_files()), batch=10,
+                  name="all %d shipped models unmutated" % nfiles, exhaustive=True)
+    if ctx.stop():
+        return
     complete.sort(key=lambda f: (os.path.getsize(os.path.join(REPO, f)), f))
     name = ("all single structural faults of all %d shipped models" % nfiles if ctx.thorough()
             else "all single structural faults of %d of %d shipped models (subset rotates with the seed)" % (len(complete), nfiles))
